@@ -30,6 +30,9 @@ func CheckHistory(o *Outcome) []Viol {
 	if o.Deadlocked || o.Stalled || o.Oplog == nil {
 		return nil
 	}
+	if o.Sc.Preload > 0 || o.Sc.MaxOplog > 0 {
+		return nil // the log is trimmed by retention: not replayable from the final oplog
+	}
 	isWrite := func(k string) bool { return k == "ins" || k == "inc" || k == "fau" }
 	byTag := map[string]*HRec{}
 	for i := range o.History {
